@@ -97,6 +97,14 @@ def worker(unit, emit):
             for s, d in inputs.concretise(x, script, rnd, k=1):
                 pairrec(x, xkind, s, d, {})
         for kw in opts[1:]:
+            # element strings may start with the separator character (FNC1): the canonical form under this option, prefixed by the
+            # separator, with and without surrounding white space
+            if kw.get('separator'):
+                rk = lib.call(mod.validate, x, **kw)
+                if rk['k'] == 'ret' and rk['t'] == 'str':
+                    y0 = kw['separator'] + lib.from_cps(rk['v'])
+                    for pre, post in ((' ', ''), ('\t', ' '), ('\u2003', '\n')):
+                        pairrec(y0, xkind, pre + y0 + post, 'leading separator, surround', kw)
             for script in scripts1[::p['opt_stride']]:
                 for s, d in inputs.concretise(x, script, rnd, k=1):
                     pairrec(x, xkind, s, d, kw)
